@@ -145,6 +145,7 @@ def decField_dt (e : Endian) (all : List Member) (n : String) (t : Ty) (k : MKin
       if (data.length : Int) - (pos0 : Int) < (c : Int) then .error .prophy
       else pure (Val.bytes (slice data pos0 c), c, hints)
     | _ => do
+      if (f.size : Int) > (data.length : Int) - (pos0 : Int) then .error .prophy
       let (vs, cur) ← decN (fun d q => decTy e t d q false) c data pos0 0
       pure (Val.arr vs, cur, hints)
   | .dyn _ _ => do
@@ -218,6 +219,7 @@ theorem decField_fixed_byte (c : Nat) :
 
 theorem decField_fixed_nb (c : Nat) (hb : t ≠ .byte) :
     decField_dt e all n t (.fixed c) f data pos0 hints = (do
+      if (f.size : Int) > (data.length : Int) - (pos0 : Int) then .error .prophy
       let (vs, cur) ← decN (fun d q => decTy e t d q false) c data pos0 0
       pure (Val.arr vs, cur, hints)) := by
   cases t <;> first | rfl | exact absurd rfl hb
@@ -513,6 +515,7 @@ theorem field_spec (e : Endian) (all : List Member) (n : String) (t : Ty) (k : M
         exact ⟨hasField_bytes_dt _ _ _ (by simp [lenOk_dt, hsl]), ha, hg, by simp [MKind.sizer?],
           Or.inr ⟨by simp, rfl, rfl, by simp [MKind.sizer?]⟩⟩
     · rw [Py.decField_fixed_nb _ _ _ _ _ _ _ _ _ hb] at h
+      replace h := Py.ite_err h
       obtain ⟨⟨vs, cur⟩, hd, h⟩ := Py.bind_ok h
       simp only [pure, Except.pure, Except.ok.injEq, Prod.mk.injEq] at h
       obtain ⟨rfl, rfl, rfl⟩ := h
